@@ -316,6 +316,7 @@ type world struct {
 	contents  map[string][]byte
 	keyDir    string // directory of the entry (dir layout) / tar path
 	tarPath   string
+	goodYAML  []byte // the module.yaml of a complete entry as the store wrote it
 }
 
 func fileName(f int) string { return fmt.Sprintf("pkg/f%d.proto", f) }
@@ -335,11 +336,18 @@ func newWorld(ctx context.Context, cfg config, dir string) (*world, error) {
 	pathToData := map[string][]byte{}
 	for f := 1; f <= cfg.NFiles; f++ {
 		c := []byte(fmt.Sprintf("syntax = \"proto3\";\npackage pkg;\nmessage M%d { string id = 1; }\n", f))
+		if f == 1 {
+			// the first file imports a file of another module: the entry records a dependency pin
+			c = []byte("syntax = \"proto3\";\npackage pkg;\nimport \"dep/d.proto\";\nmessage M1 { dep.D d = 1; }\n")
+		}
 		pathToData[fileName(f)] = c
 		w.contents[fileName(f)] = c
 		w.fileNames = append(w.fileNames, fileName(f))
 	}
-	omni, err := bufmoduletesting.NewOmniProvider(bufmoduletesting.ModuleData{Name: "buf.test/verif/cached", PathToData: pathToData})
+	omni, err := bufmoduletesting.NewOmniProvider(
+		bufmoduletesting.ModuleData{Name: "buf.test/verif/cached", PathToData: pathToData},
+		bufmoduletesting.ModuleData{Name: "buf.test/verif/dep", PathToData: map[string][]byte{"dep/d.proto": []byte("syntax = \"proto3\";\npackage dep;\nmessage D { string id = 1; }\n")}},
+	)
 	if err != nil {
 		return nil, err
 	}
@@ -418,6 +426,21 @@ func (w *world) run(ctx context.Context, p *proc) {
 // access reads everything through the ModuleData handle: "content" (all bytes equal the module's),
 // "mismatch" (an error), or "WRONG-CONTENT" (served bytes differ: the thing that must never happen).
 func (w *world) access(ctx context.Context, md bufmodule.ModuleData) string {
+	// the dependency pins first: they are covered by the digest of the key like the files are
+	if deps, err := md.DepModuleKeys(); err != nil {
+		return "mismatch"
+	} else if want, werr := w.data.DepModuleKeys(); werr == nil {
+		if len(deps) != len(want) {
+			return "WRONG-CONTENT"
+		}
+		for i := range deps {
+			a, _ := deps[i].Digest()
+			b, _ := want[i].Digest()
+			if deps[i].String() != want[i].String() || a == nil || b == nil || a.String() != b.String() {
+				return "WRONG-CONTENT"
+			}
+		}
+	}
 	b, err := md.Bucket()
 	if err != nil {
 		return "mismatch"
@@ -499,6 +522,11 @@ func (w *world) project() (files []string, yaml string, extra bool, tmp int) {
 		yaml = "absent"
 	case bytes.Contains(data, []byte("version: v1")) && bytes.Contains(data, []byte("files_dir: files")):
 		yaml = "valid"
+		if w.goodYAML == nil {
+			w.goodYAML = data
+		} else if !bytes.Equal(data, w.goodYAML) {
+			yaml = "depsbad"
+		}
 	default:
 		yaml = "invalid"
 	}
@@ -555,6 +583,23 @@ func (w *world) tamper(o opRec) error {
 		return os.WriteFile(filepath.Join(kd, "module.yaml"), []byte("versio"), 0o644)
 	case "yaml-delete":
 		return os.Remove(filepath.Join(kd, "module.yaml"))
+	case "yaml-deps":
+		// the marker stays a well-formed module.yaml; the digest of the dependency pin it lists is changed
+		data, err := os.ReadFile(filepath.Join(kd, "module.yaml"))
+		if err != nil {
+			return err
+		}
+		i := bytes.LastIndex(data, []byte("digest: b5:"))
+		if i < 0 {
+			return fmt.Errorf("module.yaml lists no dependency digest: %s", data)
+		}
+		j := i + len("digest: b5:") + 7
+		if data[j] == 'a' {
+			data[j] = 'b'
+		} else {
+			data[j] = 'a'
+		}
+		return os.WriteFile(filepath.Join(kd, "module.yaml"), data, 0o644)
 	}
 	return fmt.Errorf("unknown tamper kind %q", o.Kind)
 }
